@@ -9,7 +9,12 @@
      pyxel/calibration/archipelago_datatree.py  islands created in a thread pool, executor.map order
      pyxel/util/randomize.py          set_random_seed = save / seed / ... / restore on ONE process-wide
                                       generator (threads share it, processes do not)
+     pyxel/pipelines/model_group.py   (round 2b) what a WORKER receives: under the synchronous / threaded scheduler a
+     + every pickle hook under        task works on a deep copy of the caller's processor, under a process pool on
+     pipelines/ detectors/ ...        what a PICKLE round trip (cloudpickle, __getstate__ / __setstate__) restores;
+                                      ModelGroup.__iter__ executes the models whose `enabled` flag is set
    Style: Coq standard library only. *)
+From Coq Require Import String.
 From Coq Require Import ZArith List Bool Lia PeanoNat.
 Import ListNotations.
 
@@ -438,6 +443,123 @@ Definition lcg_seed (s : Z) : Z := (s mod 65536)%Z.
 Definition lcg_next (g : Z) : Z := ((75 * g + 74) mod 65537)%Z.
 Definition lcg_out (g : Z) : Z := g.
 
+
+(* ------------------------------------- what a worker receives: deep copy vs. pickle round trip (round 2b) *)
+(* Under the synchronous and the threaded scheduler a task receives the caller's processor itself and works on
+   `processor.replace(..)` = a deep copy.  Under a process pool dask serialises every task with cloudpickle: the
+   worker works on a deep copy of what a PICKLE ROUND TRIP of the processor restores.  Classes without pickle hooks
+   are restored attribute by attribute (`__dict__`; trusted: Python's default pickling); a class WITH hooks
+   (__getstate__ / __setstate__) is restored as its hooks say.  translator/c07.py regenerates one row per hooked
+   class under pyxel/{pipelines,detectors,data_structure,outputs,exposure}: for every attribute `__init__` sets,
+   how it comes back. *)
+
+(* the constructor arguments of a model function (pyxel/pipelines/model_function.py: ModelFunction.__init__) *)
+Inductive mfield := FFunc | FName | FArgs | FEnabled.
+
+Definition mfield_eqb (a b : mfield) : bool :=
+  match a, b with
+  | FFunc, FFunc | FName, FName | FArgs, FArgs | FEnabled, FEnabled => true
+  | _, _ => false
+  end.
+Definition has_field (f : mfield) (l : list mfield) : bool := existsb (mfield_eqb f) l.
+
+Inductive attr_restore :=
+| AWhole                          (* __setstate__ stores what __getstate__ took from this attribute (as is, or through
+                                     list() / tuple() / dict()): the value pickles by default, element by element *)
+| ARecreated                      (* __setstate__ sets it to the same state-independent expression __init__ uses *)
+| ARebuilt (kept : list mfield)   (* a sequence of model functions rebuilt THROUGH THEIR CONSTRUCTOR from a definition
+                                     that holds only the listed arguments; the others take their defaults *)
+| AMissing.                       (* not restored at all: the unpickled object lacks the attribute *)
+
+(* hk_deepcopy: the class has a __deepcopy__ of its own.  Without one, copy.deepcopy goes through the SAME hooks
+   (__reduce_ex__), so every deep copy -- the sequential path and the threaded schedulers included -- is restored by
+   them too; with one, only pickling is *)
+Record hook_row := mkHook { hk_class : string; hk_deepcopy : bool; hk_attrs : list (string * attr_restore) }.
+
+(* a model function as far as one run can tell: which probe instance it is (an ARGUMENT of the model: the default is
+   instance 0) and whether it is switched on *)
+Record minst := mkMI { mi_ident : Z; mi_enabled : bool }.
+
+(* ModelGroup.__iter__ / run: the enabled models, in order *)
+Definition executed (ms : list minst) : list Z := map mi_ident (filter mi_enabled ms).
+
+(* the constructor called with the keywords of a definition that holds only `kept`: func and name have no default (TypeError),
+   arguments default to none (the probe then is instance 0), enabled defaults to True *)
+Definition rebuild (kept : list mfield) (m : minst) : option minst :=
+  if has_field FFunc kept && has_field FName kept
+  then Some (mkMI (if has_field FArgs kept then mi_ident m else 0%Z) (if has_field FEnabled kept then mi_enabled m else true))
+  else None.
+
+Fixpoint rebuild_all (kept : list mfield) (ms : list minst) : option (list minst) :=
+  match ms with
+  | [] => Some []
+  | m :: r => match rebuild kept m, rebuild_all kept r with
+              | Some m', Some r' => Some (m' :: r')
+              | _, _ => None
+              end
+  end.
+
+Definition restore_models (r : attr_restore) (ms : list minst) : option (list minst) :=
+  match r with
+  | AWhole => Some ms
+  | ARebuilt kept => rebuild_all kept ms
+  | ARecreated | AMissing => None
+  end.
+
+Definition attr_survives (r : attr_restore) : bool := match r with AMissing => false | _ => true end.
+Definition attr_faithful (r : attr_restore) : bool :=
+  match r with
+  | AWhole | ARecreated => true
+  | ARebuilt kept => has_field FFunc kept && has_field FName kept && has_field FArgs kept && has_field FEnabled kept
+  | AMissing => false
+  end.
+
+(* the models of a group must come back THEMSELVES (a constant would not do) *)
+Definition models_faithful (r : attr_restore) : bool :=
+  match r with AWhole => true | ARebuilt _ => attr_faithful r | _ => false end.
+
+Fixpoint lookup_attr (a : string) (l : list (string * attr_restore)) : option attr_restore :=
+  match l with
+  | [] => None
+  | (a', r) :: t => if String.eqb a a' then Some r else lookup_attr a t
+  end.
+
+(* how the `models` of a ModelGroup come back (no row for the class = no hooks = default pickling) *)
+Fixpoint models_restore (hooks : list hook_row) : attr_restore :=
+  match hooks with
+  | [] => AWhole
+  | h :: t => if String.eqb (hk_class h) "ModelGroup"%string
+              then match lookup_attr "models"%string (hk_attrs h) with Some r => r | None => AMissing end
+              else models_restore t
+  end.
+
+Definition hooks_survive (hooks : list hook_row) : bool :=
+  forallb (fun h => forallb (fun ar => attr_survives (snd ar)) (hk_attrs h)) hooks.
+
+(* every attribute of a hooked class comes back as it was, the models of a group included *)
+Definition row_faithful (h : hook_row) : bool :=
+  forallb (fun ar => attr_faithful (snd ar)) (hk_attrs h)
+  && (if String.eqb (hk_class h) "ModelGroup"%string
+      then models_faithful (match lookup_attr "models"%string (hk_attrs h) with Some r => r | None => AMissing end)
+      else true).
+Definition hooks_faithful (hooks : list hook_row) : bool := forallb row_faithful hooks.
+
+(* the hooks a transport goes through: pickling -- all of them; a deep copy -- those of the classes without a
+   __deepcopy__ of their own *)
+Definition hooks_applied (hooks : list hook_row) (pickled : bool) : list hook_row :=
+  if pickled then hooks else filter (fun h => negb (hk_deepcopy h)) hooks.
+
+(* the models of the pipeline a run works on.  pickled = the task went through dask's process-pool serialisation (or
+   the caller's objects went through pickle before); otherwise the run works on a deep copy (sequential path,
+   synchronous and threaded schedulers).  None = an object lacks an attribute / a constructor refuses: the run raises *)
+Definition worker_models (hooks : list hook_row) (pickled : bool) (ms : list minst) : option (list minst) :=
+  let hs := hooks_applied hooks pickled in
+  if hooks_survive hs then restore_models (models_restore hs) ms else None.
+
+(* an object as an attribute store, and what a hook-driven round trip keeps of it *)
+Definition unpickle_obj {V} (restored : list string) (o : list (string * V)) : list (string * V) :=
+  filter (fun av => existsb (String.eqb (fst av)) restored) o.
+
 (* ----------------------------------------------------------------- correspondence case records *)
 
 (* one entry of a result: the parameter label it sits under, the parameter values the run that
@@ -457,10 +579,22 @@ Record par_case := mkCase {
   pc_model : bool;                                  (* false: the data is not predicted by the model (random draws) *)
   pc_seq : option (list cell);                      (* with_dask=False; None = raised *)
   pc_dask : option (list nat * list cell);          (* with_dask=True: shape, cells row-major; None = raised *)
-  pc_files : option (list (nat * list pval))        (* outputs enabled: (file index, params decoded from the file) *)
+  pc_files : option (list (nat * list pval));       (* outputs enabled: (file index, params decoded from the file) *)
+  pc_pipe : option (list minst * bool * option (list Z))
+                                                    (* the probe instances of the pipeline in execution order (ident,
+                                                       enabled), whether the tasks went through pickle, and the settings
+                                                       of the caller's detector; then every entry's data ends with the
+                                                       list of instances that EXECUTED [and the settings the run SAW] *)
 }.
 
 Definition model_cell (p : list pval) : cell := mkCell p p 0.
+(* with an execution trace: the data ends with the idents of the models that ran, in order *)
+Definition model_cell_x (tr : option (list Z * option (list Z))) (p : list pval) : cell :=
+  match tr with
+  | None => model_cell p
+  | Some (e, None) => mkCell p (p ++ [PV e]) 0
+  | Some (e, Some st) => mkCell p (p ++ [PV e; PV st]) 0
+  end.
 
 Definition nat_list_eqb := list_eqb Nat.eqb.
 
@@ -501,19 +635,35 @@ Definition case_violates (c : par_case) : bool :=
       || match pc_files c with None => false | Some fs => negb (files_ok_from 0 dc fs) end
   end.
 
-Definition case_mismatch_cfg (cf : dask_cfg) (c : par_case) : bool :=
+(* the traces the model predicts: of the sequential path (the caller's pipeline) and of the parallel path (what the
+   worker receives); None in the second component = the run on the worker's copy raises *)
+Definition trace_of (hooks : list hook_row) (pk : bool) (c : par_case) : option (option (list Z * option (list Z))) :=
+  match pc_pipe c with
+  | None => Some None
+  | Some (ms, _, st) =>
+      match worker_models hooks pk ms with None => None | Some ms' => Some (Some (executed ms', st)) end
+  end.
+(* the sequential path works on deep copies; the parallel path on deep copies of what the worker receives.  The
+   detector classes have no hook: when every hooked class survives, the run sees the caller's settings *)
+Definition seq_trace (hooks : list hook_row) (c : par_case) := trace_of hooks false c.
+Definition dask_trace (hooks : list hook_row) (c : par_case) :=
+  trace_of hooks (match pc_pipe c with Some (_, pk, _) => pk | None => false end) c.
+
+Definition case_mismatch_cfg (cf : dask_cfg) (hooks : list hook_row) (c : par_case) : bool :=
   if negb (pc_model c) then false else
   negb
-    (match dask_params_cfg cf (pc_mode c), pc_dask c with
-     | None, None => true
-     | Some (sh, cells), Some (sh', cells') =>
-         nat_list_eqb sh sh' && list_eqb cell_eqb (map model_cell cells) cells'
-     | _, _ => false
+    (match dask_params_cfg cf (pc_mode c), dask_trace hooks c, pc_dask c with
+     | None, _, None => true
+     | Some _, None, None => true
+     | Some (sh, cells), Some tr, Some (sh', cells') =>
+         nat_list_eqb sh sh' && list_eqb cell_eqb (map (model_cell_x tr) cells) cells'
+     | _, _, _ => false
      end
      &&
-     match pc_seq c with
-     | None => true
-     | Some cs => same_cells (map model_cell (seq_params (pc_mode c))) cs
+     match pc_seq c, seq_trace hooks c with
+     | None, _ => true
+     | Some cs, Some tr => same_cells (map (model_cell_x tr) (seq_params (pc_mode c))) cs
+     | Some _, None => false
      end).
 
 Fixpoint indices_where {A} (p : A -> bool) (l : list A) (k : Z) : list Z :=
@@ -524,4 +674,5 @@ Fixpoint indices_where {A} (p : A -> bool) (l : list A) (k : Z) : list Z :=
 
 Definition mismatches (cs : list par_case) : list Z := indices_where case_mismatch cs 0%Z.
 Definition violations (cs : list par_case) : list Z := indices_where case_violates cs 0%Z.
-Definition mismatches_cfg (cf : dask_cfg) (cs : list par_case) : list Z := indices_where (case_mismatch_cfg cf) cs 0%Z.
+Definition mismatches_cfg (cf : dask_cfg) (hooks : list hook_row) (cs : list par_case) : list Z :=
+  indices_where (case_mismatch_cfg cf hooks) cs 0%Z.
